@@ -399,12 +399,23 @@ fn gen_live(rng: &mut Rng, rf: u8, long: bool, dense: bool, v: &mut Vec<String>)
             2 => { if q > 1 { ds.push((t, rng.range(0, q as u64 - 1) as u8)); } }         // only ever a sub-quorum count
             3 => { let c = rng.range(q as u64, top as u64) as u8; ds.push((t, c)); ds.push((t, c)); }   // duplicate
             4 => { ds.push((t, top)); ds.push((t, q)); }                                  // a later, higher count may arrive first
-            5 => { ds.push((t, rng.range(q as u64, top as u64) as u8)); if q > 1 { ds.push((t, rng.below(q as u64) as u8)); } } // stale lower count
+            5 | 6 => { ds.push((t, rng.range(q as u64, top as u64) as u8)); if q > 1 { ds.push((t, rng.below(q as u64) as u8)); } } // stale lower count
             _ => { ds.push((t, rng.range(q as u64, top as u64) as u8)); }
         }
     }
     match rng.below(4) { 0 => {}, 1 => ds.reverse(), _ => shuffle(rng, &mut ds) }
     let maxd = if long { 5 } else if dense { 14 } else { 8 };
+    if !long && rng.chance(1, 2) {
+        // the first unconfirmed transaction is confirmed LAST: everything behind it (stale counts included) is first
+        // recorded above the watermark and released in one step
+        let (mut rest, mut own): (Vec<_>, Vec<_>) = ds.iter().copied().partition(|&(t, _)| t != pre);
+        own.retain(|&(_, c)| c >= q);
+        if own.is_empty() { own.push((pre, q)); }
+        own.truncate(2);
+        rest.truncate(maxd - own.len());
+        rest.extend(own);
+        ds = rest;
+    }
     if long {
         // confirm a long run in one go first so that more than one batch of 50 commits lies below the watermark
         let head: Vec<(usize, u8)> = (0..ntx.min(54)).map(|t| (t, q)).collect();
